@@ -446,7 +446,7 @@ func checkExactSymbolMatch(p *Prog, r *Report, rule string) int {
 						if side == bo.X {
 							other = bo.Y
 						}
-						if b, fv, okF := fieldRef(resolveLocal(side)); okF && fv != nil && fv.Name() == "Name" && resolveLocal(b) == resolveLocal(v) && isReqName(resolveLocal(other)) {
+						if b, fv, okF := fieldRef(resolveLocal(side)); okF && fv != nil && fv.Name() == "Name" && sameAddrValue(b, v, NewKeyer(f)) && isReqName(resolveLocal(other)) {
 							ok = true
 						}
 					}
@@ -457,4 +457,23 @@ func checkExactSymbolMatch(p *Prog, r *Report, rule string) int {
 		}
 	}
 	return nCmp
+}
+
+// sameAddrValue: a and b denote the same address: identical values, or element addresses x[i] with the same index value
+// and the same slice expression (identical value, or loads of the same field that the function never stores to).
+func sameAddrValue(a, b ssa.Value, k *Keyer) bool {
+	a, b = resolveLocal(a), resolveLocal(b)
+	if a == b {
+		return true
+	}
+	ia, ok1 := a.(*ssa.IndexAddr)
+	ib, ok2 := b.(*ssa.IndexAddr)
+	if !ok1 || !ok2 || resolveLocal(ia.Index) != resolveLocal(ib.Index) {
+		return false
+	}
+	if resolveLocal(ia.X) == resolveLocal(ib.X) {
+		return true
+	}
+	ka, kb := k.Key(ia.X), k.Key(ib.X)
+	return ka == kb && !strings.HasPrefix(ka, "#") && !strings.HasPrefix(ka, "$")
 }
